@@ -174,6 +174,7 @@ def gpc (m : M) : PyM VC := do
   let pm ← m.only Gen.pythonVersionMarkers.reverse   -- ("python_version", "python_full_version")
   if pm.isAny then pure VC.any
   else if pm.isEmpty then pure .empty
+  else if (← dnf defaultFuel [] m).isEmpty then pure .empty   -- repo fix: unsatisfiable only in DNF ≠ "any python"
   else
     match ← convertMarkersFor "python_version" m with
     | none => pure VC.any
